@@ -9,6 +9,23 @@ NOTE = ("Trusted: Lean 4.33 kernel (axioms propext, Classical.choice, Quot.sound
         "differential correspondence streams named here (agreement on generated inputs, not a proof of the tie). ")
 
 CLAIMS = {
+ 'C09': dict(
+   text="PARTIAL (proof for the modelled logic, watchdog observation for the process). Lean theorems for ALL inputs: text_conv_never_crashes / "
+        "text_parse_never_crashes (any byte sequence, either notation, any --key), write_never_crashes / write_conv_never_crashes (any instances document as "
+        "scalar strings, any attribute file, any flag values): in the model every Must…/logx.Panic/unguarded loop of the Go code is an explicit panic/hang "
+        "outcome and is proved unreachable (MustNewScale only sees keys that have a scale, Name.Semitone only names, the tonic always exists, the lexer's loops "
+        "stop at end of input - a regenerated fact); refusal of every nonsense kind on every path it can arrive on (zero_duration_refused_yaml/_text, "
+        "zero_meter_flag_refused, bad_value_refuses_instance, tempo_zero_refused, unknown_dynamic_refused incl. --velocity, unknown_chord_refused, "
+        "unknown_modifier_refused, key_without_scale_refused, mixed_notation_refused, empty_piece_refused, played_piece_is_sane, written_piece_was_valid). "
+        "Observed on the real binary by the `robust` stream (5,300 / 36,000 runs): every subcommand on random, truncated, mutated, repeated, over-long input on "
+        "stdin and as FILE, 80 YAML shapes, every flag with 46 hostile values and random combinations, arbitrary bytes as dictionary files, and a "
+        "(nonsense kind x path) matrix planted at the start, middle and end of valid pieces; oracles: no panic/fatal/signal/time-out (20 s, re-run alone with "
+        "90 s before calling it a hang), failure => exit != 0, stderr diagnostic, empty stdout and empty -o file, planted nonsense => refused.",
+   note="What a theorem cannot carry: wall-clock promptness, runtime fatal errors (memory), and what cobra / yaml.v3 / gomidi do with bytes before or after crd's own "
+        "code - those are covered only as far as the watchdog stream exercises them (it found the gomidi int16 track index panic, fixed in 84c61b3). "
+        "`gen attr -d N` produces output proportional to N by definition; N is kept small in the stream.",
+   technique="Lean 4 proof: explicit crash outcomes in the model proved unreachable by invariants over the instance list + per-path refusal theorems; watchdog fuzz of the real binary with exit/stdout/stderr oracles",
+   ref="6 (C09)"),
  'C05': dict(
    text="Lean theorems: degree_vs_syllable, by induction over the progression with the converter's carried scale: for EVERY abstract progression (roots on "
         "degrees 1..7 with flat/natural/sharp, any symbol, optional bass as an interval above the root, rests, any durations, any metadata with key changes at "
